@@ -1,9 +1,9 @@
 import Pun.Model.DepCtx
 /-!
 Protocol of C16
-  `run <tid>:<ev> …`   events `E:<code> X R C N:<k> G A:<op> T:<child> K:<child>`; codes `f p o i u<n>`
+  `run <tid>:<ev> …`   events `E:<code> X R C N:<k> G A:<op>[:<kinds>] T:<child> K:<child> B:<m>:<code> M:<m>`; codes `f p o i u<n>`
       → `ok <obs> …`   one per event: `<code>` | `<code>|<fam>,<a>,<b>,<branch>` | `<code>|!<Err>`
-      → `err Other`    when a block is left that was never entered
+      → `err Other`    when a block is left that was never entered or a manager is entered that was never built
   `disp <op> <code>`   → `ok <fam>,<a>,<b>,<branch>` | `err <Kind>`
 -/
 namespace Pun.Drv.C16
@@ -44,11 +44,21 @@ def parseEv : List String → Option Ev
   | ["K", ch] => ch.toNat?.map Ev.spawnTask
   | _ => none
 
-def parseTEv (s : String) : Option (Nat × Ev) :=
+/-- `A:<op>:<kinds>`: the operand kinds (p = p-box, d = Dempster-Shafer, D = distribution, v = interval) do not
+change what is called — every dependency-sensitive operand is converted to a p-box first -/
+def parseEvM : List String → Option EvM
+  | ["B", m, c] => do some (.build (← m.toNat?) (← parseCode c))
+  | ["M", m] => m.toNat?.map EvM.enterM
+  | ["A", op, kk] =>
+    if kk.toList.length = 2 ∧ kk.toList.all (fun ch => ch = 'p' ∨ ch = 'd' ∨ ch = 'D' ∨ ch = 'v')
+    then (parseOp op).map (fun o => EvM.base (Ev.arith o)) else none
+  | toks => (parseEv toks).map EvM.base
+
+def parseTEv (s : String) : Option (Nat × EvM) :=
   match s.splitOn ":" with
   | t :: rest => do
     let tid ← t.toNat?
-    let e ← parseEv rest
+    let e ← parseEvM rest
     some (tid, e)
   | _ => none
 
@@ -63,7 +73,7 @@ def handle : List String → String
     match evs.mapM parseTEv with
     | none => "bad-op"
     | some es =>
-      match traceW World.init es with
+      match traceWM World.init es with
       | none => "err Other"
       | some tr => "ok" ++ String.join (tr.map (fun p => " " ++ showObs p.2))
   | ["disp", op, c] =>
